@@ -164,7 +164,7 @@ class Kinds:
                 return {"int"}
             if last == "Fraction":
                 return {"Fraction"}
-            if name in ("str", "repr", "chr"):
+            if name in ("str", "repr", "chr", "unicodedata.normalize"):
                 return {"str"}
             if name == "bool":
                 return {"bool"}
